@@ -52,8 +52,8 @@ let handle (line : string) : string =
     let opl = if ops = "-" then [] else List.map op_of_string (split_on ';' ops) in
     let ((buf, s), evs) = wrun r (n_of_int (int_of_string maxsz)) conn_init opl in
     let rec take k l = if k = 0 then [] else match l with [] -> [] | x :: t -> x :: take (k - 1) t in
-    Printf.sprintf "%s | buf=%d head=%s alive=%s" (String.concat " " (List.map event_s evs))
-      (List.length buf) (hex_of_bytes (take 14 buf)) (bool_s s.w_alive)
+    Printf.sprintf "%s | buf=%d head=%s alive=%s frag=%d" (String.concat " " (List.map event_s evs))
+      (List.length buf) (hex_of_bytes (take 14 buf)) (bool_s s.w_alive) (if s.w_alive then List.length s.w_frag else 0)
   | _ -> "BADCASE"
 
 let () = run_cases handle
